@@ -27,6 +27,9 @@ def gen_history(rng, thorough):
     cs.append(("add_hook", mk_extrude(2, layer, nozzle, fil)))
     if rng.random() < 0.5:
         cs.append(("add_hook", ("record", 3)))
+    if rng.random() < 0.35:
+        # a hook that returns a new mapping without the F word, or one that sets a word of its own
+        cs.append(("add_hook", rng.choice([("drop", 4, "F"), ("drop", 4, "F"), ("set", 4, "A", Fraction(3, 2)), ("set", 4, "F", Fraction(900))])))
     cs.append(("set_extrusion", rng.choice(["absolute", "relative"])))
     for _ in range(rng.randint(5, 40 if thorough else 22)):
         k = rng.random()
@@ -88,6 +91,27 @@ def oracle(dp, cmds, steps):
                         if cl[1] != org or [v for v in cl[2]] != [v if v is not None else Fraction(0) for v in tgt] and None not in tgt:
                             fails.append((i, "hook %d of %r received origin %s target %s; the move went from %s to %s"
                                           % (cl[0], cmd_json(c), [float(x) for x in cl[1]], [float(x) for x in cl[2]], [float(x) for x in org], tgt)))
+                            return fails
+                # "the parameters it returns are exactly the ones emitted": thread the caller's words through the hooks
+                given = c[3] if c[0] in ("move", "move_abs") else c[2]
+                words = {str(k).upper(): v for k, v in given}
+                for h in hooks:
+                    hk = kind[h]
+                    if hk[0] == "set":
+                        words[hk[2]] = hk[3]
+                    elif hk[0] == "drop":
+                        words.pop(hk[2], None)
+                    elif hk[0] == "extrude":
+                        words["E"] = None          # value checked below
+                for line in g1:
+                    got = {k: v for k, v in line.items() if k not in ("G", "X", "Y", "Z")}
+                    if set(got) != set(words):
+                        fails.append((i, "%r with hooks %r emitted the words %s on a linear move; the hooks returned %s"
+                                      % (cmd_json(c), [kind[h][:3] for h in hooks], sorted(got), sorted(words))))
+                        return fails
+                    for k, v in words.items():
+                        if isinstance(v, Fraction) and abs(got[k] - v) > eps:
+                            fails.append((i, "%r: word %s%s emitted, the hooks returned %s" % (cmd_json(c), k, float(got[k]), float(v))))
                             return fails
                 # extrusion amount of each G1 against the hook's own origin/target
                 ext = [h for h in hooks if kind[h][0] == "extrude"]
